@@ -40,6 +40,22 @@ reg(
     "DESIGN.md section 4 C11",
 )
 
+reg(
+    "C19",
+    "TLA+ R-spec of the BD language (BdLang.tla: expression datatype with Eval/Dom, statement->command table; BdProg.tla: the program as a state "
+    "machine over definitions and sections); TLC enumerates expression ASTs (with evaluator lemmas) and programs (exhaustive single statements, "
+    "-simulate for multi-construct programs); a renderer prints them as BD text with minimal parentheses, the real BDParser + "
+    "BootImageV21.load_from_config process the text, TLC (BdTrace) re-executes the program on the state machine and decides every logged "
+    "option value, section id and command",
+    "Exhaustive over all depth<=2 expression ASTs in the asserted domain (18 binary, 3 unary operators, size suffixes) and over the single-statement "
+    "menu (16 statement kinds x operand forms; quick tier: seeded subset); simulated for multi-section programs with constants referring to earlier "
+    "constants, several definitions per line, several options blocks, sources/extern files and 12 unsupported constructs that must be refused.",
+    "Trusted: TLC, the renderer (minimal parentheses by the documented C-like precedence) and the projection of command objects to records in "
+    "harness/c19.py. Operands < 2^31; redefinition of a name, mixed bool/int operands and size suffixes on non-leftmost literals are outside the "
+    "asserted domain (the documentation does not settle them). Two design-level deviations of blob loads are listed in known_findings.jsonl.",
+    "DESIGN.md section 4 C19",
+)
+
 NOT_YET = {
 }
 
